@@ -17,6 +17,10 @@ sh(f"rsync -a --delete --exclude .git --exclude replays --exclude evidence --exc
 cargo = (W / "harness/Cargo.toml").read_text().replace('path = "/repo/ddo"', f'path = "{R}/ddo"')
 (W / "harness/Cargo.toml").write_text(cargo)
 cfgp = W / "harness/.cargo/config.toml"; cfgp.write_text(cfgp.read_text().replace("/verif/.build/cargo", f"{W}/.build/cargo"))
+# the example sources compiled into the harness (engine exmodel) come from the isolated worktree too
+for f in list((W / "harness/src").glob("*.rs")) + [W / "harness/build.rs"]:
+    t = f.read_text()
+    if "/repo/ddo/examples" in t: f.write_text(t.replace("/repo/ddo/examples", f"{R}/ddo/examples"))
 chk = (W / "check").read_text().replace('shutil.copy("/repo/Cargo.lock", lock)', f'shutil.copy("{R}/Cargo.lock", lock)')
 chk = chk.replace('cwd="/repo"', f'cwd="{R}"')
 (W / "check").write_text(chk)
